@@ -662,6 +662,11 @@ pub fn families(id: &str, quick: bool) -> Vec<Family> {
                         x.cap = 15_000;
                     }
                     f.extend(b2);
+                    // four callbacks (anything that ranks, sorts or looks up the *other* callbacks is
+                    // trivially right with two of them)
+                    f.extend(indep_family(&format!("{nm} 4 callbacks {{(5,0),(8,6)}} C=1"), Some(bw), vec![(0, 4), (1, 3)],
+                        vec![(ArrSpec::Sporadic { t: 5, j: 0 }, 1u64), (ArrSpec::Sporadic { t: 8, j: 6 }, 1)],
+                        vec![SupplySpec::Dedicated]));
                     // short periods, unit costs: several polling points inside one response time,
                     // where the relative priority of polled callbacks decides the bound
                     f.extend(indep_family(&format!("{nm} T{{3,4,7}} J{{0,2}} C=1"), Some(bw), vec![(0, 3), (1, 2)],
@@ -681,6 +686,9 @@ pub fn families(id: &str, quick: bool) -> Vec<Family> {
                         x.cap = 60_000;
                     }
                     f.extend(b2);
+                    f.extend(indep_family(&format!("{nm} 4 callbacks T{{5,8,11}} J{{0,6}} C<=2"), Some(bw), vec![(0, 4), (1, 3), (2, 2)],
+                        vec![(ArrSpec::Sporadic { t: 5, j: 0 }, 1u64), (ArrSpec::Sporadic { t: 8, j: 0 }, 1), (ArrSpec::Sporadic { t: 8, j: 6 }, 1), (ArrSpec::Sporadic { t: 11, j: 0 }, 2)],
+                        vec![SupplySpec::Dedicated, SupplySpec::Periodic { q: 2, p: 3 }]));
                     f.extend(indep_family(&format!("{nm} T{{3,4,7}} J{{0,2}} C=1"), Some(bw), vec![(0, 3), (1, 2)],
                         [3u64, 4, 7].iter().flat_map(|t| [0u64, 2].into_iter().map(move |j| (ArrSpec::Sporadic { t: *t, j }, 1u64))).collect(), sups.clone()));
                     f.extend(indep_family(&format!("{nm} T2..12 J<=3 C<=2"), Some(bw), vec![(1, 1), (0, 2), (2, 0)], grid(2, 12, 3, 2, true), sups.clone()));
